@@ -1373,6 +1373,7 @@ impl Compiler {
             is_generator,
             is_async,
             is_arrow,
+            is_class_constructor: false,
             uses_arguments: false, // TODO: analyze function body
             uses_this: !is_arrow,
             param_names,
@@ -2382,6 +2383,7 @@ impl Compiler {
             is_generator: false,
             is_async: false,
             is_arrow: false,
+            is_class_constructor: true,
             uses_arguments: false,
             uses_this: true, // constructors use this
             binding_count,
@@ -2455,6 +2457,7 @@ impl Compiler {
             is_generator: false,
             is_async: false,
             is_arrow: false,
+            is_class_constructor: true,
             uses_arguments: has_super, // Uses arguments if we have a super call
             uses_this: true,           // constructors use this
             binding_count: 3,          // this + slack
